@@ -38,9 +38,11 @@ PARTIAL = {
                     "calls and common motions reproduce the result exactly (history_reproduces, repeat_reproduces, "
                     "common_motion_equivariant); the allowance is for floating-point decisions of the narrow phase and "
                     "is checked only by the search oracle.",
-    "tree_refinement": "that RigidBody.aabb_tree (AabbTree.insert_aabbs, sort mode) yields arrays accepted by wfCheck "
-                       "with leaf k = aabbs[k] is checked at run time in Lean on the dumped arrays (C05 "
-                       "insertLeaf_refines is not proved); broad_phase_same_pairs is proved for every such state.",
+    "tree_refinement (closed)":
+        "closed in D3.C16Link: RigidBody.aabb_tree (tetAabb_valid, buildTree_wf, treeOf_wf) passes wfCheck and "
+        "leavesMatch by proof (through C05Insert.insertLeaf_refines); broad_phase_same_pairs_built / "
+        "contacts_tree_eq_brute: use_aabb_trees=True/False give permuted contact lists, equal intersection flags and "
+        "equal wrenches. The run-time wfCheck on the dumped arrays stays as the tie to the code",
 }
 ASSUMPTIONS = [
     "narrow phase (intersect_tetrahedron_pair + compute_contact_force) is a function of the tetrahedra coordinates in "
